@@ -572,7 +572,7 @@ def case_for(seed, i):
 
 
 def shards(tier, seed, scale=1.0):
-    nsh, per, n = {"quick": (16, 3, 1500), "thorough": (32, 30, 12000)}[tier]
+    nsh, per, n = {"quick": (16, 3, 1500), "thorough": (64, 2, 6000)}[tier]
     per = max(1, int(per * scale))
     return [{"name": "smp-%d" % s, "seed": sub(seed, ID, s), "programs": per, "n": n, "tier": tier, "wall_limit_s": WALL_S[tier]}
             for s in range(nsh)]
